@@ -402,6 +402,9 @@ func cmdCanon(args []string) int {
 			}
 		}
 		fmt.Println(w.Snapshot().Canon())
+		if i == 0 {
+			fmt.Fprintf(os.Stderr, "ask logs: %v\n", w.AskLogs())
+		}
 		w.Close()
 	}
 	return 0
